@@ -82,8 +82,9 @@ def constant_locals(F, body, cls=None):
     names = {}
     for n in walk(body["body"]):
         if n.get("k") == "LetS" and n["pat"].get("k") == "Bind" and "init" in n and "Mut)" not in n["pat"].get("mode", ""):
-            if any(x.get("k") == "Call" and "ovl" in x for x in walk(n["init"])):
-                continue
+            local_closures = {q["pat"]["id"] for q in walk(body["body"]) if q.get("k") == "LetS" and q["pat"].get("k") == "Bind" and peel(q.get("init") or {}).get("k") == "Closure"}
+            if any(x.get("k") == "Call" and "ovl" in x and not (peel(x["f"]).get("k") == "Local" and peel(x["f"]).get("id") in local_closures) for x in walk(n["init"])):
+                continue          # a call of the user's function is not a constant (a call of a local closure such as `to_complex` may be)
             try:
                 it = (cls or guards.GInterp)(F, body, lambda c: True)
                 for i, v in by_id.items():
